@@ -5,7 +5,7 @@ use serde_json::{json, Value};
 use std::os::unix::fs::FileExt;
 use vm_memory::mmap::xen_verif::{fail_next, reset, take_log, DevEvent};
 use vm_memory::mmap::{MmapRange, MmapRegion, MmapRegionError};
-use vm_memory::{Bytes, FileOffset, GuestAddress, GuestRegionMmap, MemoryRegionAddress};
+use vm_memory::{Bytes, FileOffset, GuestAddress, GuestMemoryRegion, GuestRegionMmap, MemoryRegionAddress};
 
 #[derive(Default)]
 pub struct XCtorExec {
@@ -44,6 +44,28 @@ fn err_name(e: &MmapRegionError) -> &'static str {
 impl Exec for XCtorExec {
     fn step(&mut self, line: &Value) -> Value {
         reset();
+        if line["op"] == "wrap" {
+            // a file-backed mapping given a guest range: GuestRegionMmap::new(mapping, base)
+            self.n += 1;
+            let size = us(line, "size");
+            let gbase = u(line, "gbase");
+            let name = format!("/tmp/vmh-xctor-{}-{}", std::process::id(), self.n);
+            let f = std::fs::OpenOptions::new().read(true).write(true).create(true).truncate(true).open(&name).expect("harness: file");
+            f.set_len(3 * 4096).unwrap();
+            let before = mapped_bytes_of(&name);
+            let mut r = guarded(|| {
+                let region = MmapRegion::<()>::from_range(MmapRange::new_unix(size, Some(FileOffset::new(f.try_clone().expect("harness: dup"), 0)), GuestAddress(gbase)))
+                    .expect("harness: from_range");
+                let mapped = mapped_bytes_of(&name);
+                match GuestRegionMmap::new(region, GuestAddress(gbase)) {
+                    Ok(g) => json!({"k": "ok", "start": g.start_addr().0, "len": g.len(), "last": g.last_addr().0, "mapped": mapped}),
+                    Err(_) => json!({"k": "err", "e": "InvalidGuestRegion"}),
+                }
+            });
+            r["left_mapped"] = json!(mapped_bytes_of(&name).saturating_sub(before));
+            let _ = std::fs::remove_file(&name);
+            return json!({"op": "wrap", "a": line["a"], "r": r});
+        }
         self.n += 1;
         let size = us(line, "size");
         let flen = u(line, "flen");
